@@ -133,6 +133,7 @@ func (srv *Server) WithTerminateHook(hook TerminateHook) *Server {
 // If the listener is closed, it returns ErrShutdown. Any other error encountered
 // during Accept is returned immediately. The method blocks until the server is shut down.
 func (srv *Server) Serve() error {
+	defer vp("serve.exit", srv)
 	srv.logger.Info("Running KMIP server", "bind", srv.listener.Addr())
 	for {
 		vp("serve.accept", srv)
